@@ -14,10 +14,21 @@ LOOPS = [
 ]
 
 
+_LF = {}
+
+
 def loop_fn(label, root=None):
+    """the evaluator's `eval`, read with private same-file helpers expanded in place (a helper that records
+    a choice is the two statements it contains)"""
     for l, ty, tr, tracing in LOOPS:
         if l == label:
-            return A.find_fn(VM, "eval", self_ty=ty, trait=tr, root=root), tracing
+            key = (label, root or A.REPO)
+            if key not in _LF:
+                fn0 = A.find_fn(VM, "eval", self_ty=ty, trait=tr, root=root)
+                fn = dict(fn0)
+                fn["body"] = A.inline_helpers(fn0)
+                _LF[key] = fn
+            return _LF[key], tracing
     raise KeyError(label)
 
 
